@@ -29,7 +29,7 @@ Definition rq_valid_ident (s : list N) : bool :=
 Definition rq_blank (w : list N) : bool := forallb is_wsb w.
 
 (* ---- comma separated lists with blanks around every item ---- *)
-Definition rq_item (A : Type) : Type := (list N * A * list N)%type.
+Notation rq_item A := (list N * A * list N)%type (only parsing).
 Definition rq_item_text {A} (f : A -> list N) (i : rq_item A) : list N := let '(a, x, b) := i in a ++ f x ++ b.
 Definition rq_items_text {A} (f : A -> list N) (l : list (rq_item A)) : list N := rq_join [44] (map (rq_item_text f) l).
 Definition rq_item_val {A} (i : rq_item A) : A := snd (fst i).
